@@ -1703,3 +1703,103 @@ pub fn stream_cuts(thorough: bool) -> Vec<usize> {
     v.dedup();
     v
 }
+
+// ---------------------------------------------------------------- TLS 1.3 message layouts
+
+/// Handshake messages in their RFC 8446 / RFC 9147 layouts (Certificate with a request context and
+/// per-entry extensions, CertificateRequest with context and extensions, NewSessionTicket with age_add
+/// and nonce, EncryptedExtensions, KeyUpdate, EndOfEarlyData, message_hash, CertificateVerify, Finished),
+/// as a TLS 1.2-era decoder meets them on the wire.
+pub fn tls13_messages() -> Vec<W> {
+    let mut v = Vec::new();
+    let ext_blocks: [&[u8]; 3] = [&[], &[0x00, 0x05, 0x00, 0x00], &[0x00, 0x12, 0x00, 0x04, 0x00, 0x02, 0x00, 0x00]];
+    for ctx in [0usize, 1, 8, 255] {
+        for certs in [vec![], vec![0usize], vec![5], vec![8, 3], vec![300, 1, 70], vec![65000]] {
+            for (ei, eb) in ext_blocks.iter().enumerate() {
+                if (ctx > 1 || certs.len() > 2) && ei == 2 {
+                    continue;
+                }
+                v.push(hs(11, |w| {
+                    w.block(1, "ctx_len", |w| fill(w, ctx, 0xc7));
+                    w.block(3, "cert_list_len", |w| {
+                        for (i, c) in certs.iter().enumerate() {
+                            w.block(3, "cert_len", |w| fill(w, *c, 0x30u8.wrapping_add(i as u8)));
+                            w.block(2, "cert_ext_len", |w| {
+                                w.bytes(eb);
+                            });
+                        }
+                    });
+                }));
+            }
+        }
+    }
+    // a TLS 1.3 Certificate whose bytes also make a long TLS 1.2 list (context length byte = high length byte)
+    for hi in [1usize, 2] {
+        let total = (hi << 16) + 0x0101;
+        v.push(hs(11, |w| {
+            w.u8(hi as u8).u8(1).u8(1);
+            // as TLS 1.2: a list of (hi<<16)+0x0101 bytes follows; as TLS 1.3: context of `hi` bytes, then a list
+            let c = total - 3;
+            w.block(3, "cert_len", |w| {
+                w.u8((((c - 5) >> 16) & 0xff) as u8).u8((((c - 5) >> 8) & 0xff) as u8).u8(((c - 5) & 0xff) as u8);
+                fill(w, c - 5, 0x30);
+                w.u8(0).u8(0);
+            });
+        }));
+    }
+    for ctx in [0usize, 4] {
+        for eb in [&[][..], &[0x00, 0x0d, 0x00, 0x04, 0x00, 0x02, 0x04, 0x03], &[0x00, 0x0d, 0x00, 0x04, 0x00, 0x02, 0x08, 0x04, 0x00, 0x2f, 0x00, 0x02, 0x00, 0x00]] {
+            v.push(hs(13, |w| {
+                w.block(1, "ctx_len", |w| fill(w, ctx, 0xc7));
+                w.block(2, "ext_len", |w| {
+                    w.bytes(eb);
+                });
+            }));
+        }
+    }
+    for nonce in [0usize, 1, 8] {
+        for ticket in [1usize, 32, 300] {
+            for eb in [&[][..], &[0x00, 0x2a, 0x00, 0x04, 0x00, 0x00, 0x40, 0x00]] {
+                v.push(hs(4, |w| {
+                    w.u32(7200).u32(0xdead_beef);
+                    w.block(1, "nonce_len", |w| fill(w, nonce, 1));
+                    w.block(2, "ticket_len", |w| fill(w, ticket, 0x70));
+                    w.block(2, "ext_len", |w| {
+                        w.bytes(eb);
+                    });
+                }));
+            }
+        }
+    }
+    for eb in [&[][..], &[0x00, 0x10, 0x00, 0x05, 0x00, 0x03, 0x02, b'h', b'2'], &[0x00, 0x00, 0x00, 0x00, 0x00, 0x0a, 0x00, 0x04, 0x00, 0x02, 0x00, 0x1d]] {
+        v.push(hs(8, |w| {
+            w.block(2, "ext_len", |w| {
+                w.bytes(eb);
+            });
+        }));
+    }
+    for x in [0u8, 1, 2] {
+        v.push(hs(24, |w| {
+            w.u8(x);
+        }));
+    }
+    v.push(hs(5, |_| {}));
+    v.push(hs(254, |w| fill(w, 32, 0x99)));
+    v.push(hs(254, |w| fill(w, 48, 0x99)));
+    for (alg, n) in [(0x0804u16, 256usize), (0x0403, 70), (0x0807, 64), (0x0808, 114)] {
+        v.push(hs(15, |w| {
+            w.u16(alg);
+            w.block(2, "sig_len", |w| fill(w, n, 0x30));
+        }));
+    }
+    for n in [32usize, 48] {
+        v.push(hs(20, |w| fill(w, n, 0xf1)));
+    }
+    // the compressed certificate message (RFC 8879) and the DTLS 1.3 ACK content as a handshake body
+    v.push(hs(25, |w| {
+        w.u16(2);
+        w.u8(0).u8(1).u8(0);
+        w.block(3, "compressed_len", |w| fill(w, 40, 0x78));
+    }));
+    v
+}
